@@ -20,6 +20,7 @@ import world as W
 from framework import Result, drive, enc_nats
 
 PID = "C01"
+THROTTLE_LEGS = ("srv_read", "srv_write", "srv_read_pc", "srv_write_pc", "cli_read", "cli_write", "user_read_pc", "user_write_pc")
 RULE = (
     "case = configuration (backend memory/pathio/async, block_size in {1,2,7,64,8192}, EPSV/PASV, throttle off/on, "
     "segmenter whole/1-byte/random/block+-1 on control and on data channels, latency 0/>0, backend latency 0/>0) x "
@@ -177,7 +178,7 @@ def gen_case(rng, tier_big=True, force=None):
     }
     if rng.random() < 0.3:
         lim = lambda: rng.choice([None, 997, 4096, 50000, 1000003])  # noqa: E731
-        case["throttle"] = {"srv_read": lim(), "srv_write": lim(), "cli_read": lim(), "cli_write": lim(), "user_read_pc": lim(), "user_write_pc": lim()}
+        case["throttle"] = {k: lim() for k in THROTTLE_LEGS}
     heavy = seg_data == "one" or bool(case["spy_delay"]) or backend == "async" or (bool(case["throttle"]) and seg_data != "whole")
     cap = 500 if heavy else 10**9
     if rng.random() < 0.6:
@@ -263,10 +264,10 @@ def gen_cases(ctx, scale=1.0):
     for _ in range(n_random):
         cases.append(gen_case(rng, tier_big=ctx.thorough()))
     # every throttle leg on its own, with single writes several times larger than one second's worth of the limit
-    for key in ("srv_read", "srv_write", "cli_read", "cli_write", "user_read_pc", "user_write_pc"):
+    for key in THROTTLE_LEGS:
         for limit, bs in ((3, 64), (997, 8192)):
             c = det_case(rng, bs, 3 * limit + 5)
-            c["throttle"] = {k: (limit if k == key else None) for k in ("srv_read", "srv_write", "cli_read", "cli_write", "user_read_pc", "user_write_pc")}
+            c["throttle"] = {k: (limit if k == key else None) for k in THROTTLE_LEGS}
             c["ops"].append({"op": "down", "offset": 0, "read": 100000, "api": "readall"})
             cases.append(c)
     # a backend whose read() returns fewer bytes than asked for while data remains (short reads are legal: pipes,
@@ -291,9 +292,9 @@ def gen_cases(ctx, scale=1.0):
                 c["ops"][0].update({"writes": [70, 70, 60], "stall": [1, pause]})
                 cases.append(c)
     # a speed limit of 0 (and of less than one byte per second with nothing to send) means "no limit": one leg at a time
-    for key in ("srv_read", "srv_write", "cli_read", "cli_write", "user_read_pc", "user_write_pc"):
+    for key in THROTTLE_LEGS:
         c = det_case(rng, 64, 200)
-        c["throttle"] = {k: (0 if k == key else None) for k in ("srv_read", "srv_write", "cli_read", "cli_write", "user_read_pc", "user_write_pc")}
+        c["throttle"] = {k: (0 if k == key else None) for k in THROTTLE_LEGS}
         c["ops"].append({"op": "down", "offset": 0, "read": 100000, "api": "download"})
         c["ops"][0]["api"] = "stream"
         cases.append(c)
@@ -433,17 +434,17 @@ async def _run_case(loop, case):
     bs = case["bs"]
     th = case["throttle"] or {}
     limits = {}
-    if th.get("user_read_pc"):
+    # (`is not None`: a limit of 0 is a value to pass on - it means "no limit" and must reach the constructors as 0)
+    if th.get("user_read_pc") is not None:
         limits["read_speed_limit_per_connection"] = th["user_read_pc"]
-    if th.get("user_write_pc"):
+    if th.get("user_write_pc") is not None:
         limits["write_speed_limit_per_connection"] = th["user_write_pc"]
     kw = {"block_size": bs}
     if case.get("socket_timeout") is not None:
         kw["socket_timeout"] = case["socket_timeout"]
-    if th.get("srv_read"):
-        kw["read_speed_limit"] = th["srv_read"]
-    if th.get("srv_write"):
-        kw["write_speed_limit"] = th["srv_write"]
+    for leg, option in (("srv_read", "read_speed_limit"), ("srv_write", "write_speed_limit"), ("srv_read_pc", "read_speed_limit_per_connection"), ("srv_write_pc", "write_speed_limit_per_connection")):
+        if th.get(leg) is not None:
+            kw[option] = th[leg]
     world = W.World(loop, [W.UserSpec(login=None, **limits)], backend=case["backend"], server_kwargs=kw)
     net = world.net
     events = net.events  # shared order: net events (when record), spy calls/completions, client replies
@@ -974,9 +975,35 @@ def _late(ctx):
     return LC.run_family(ctx, "C01", LC.c01_plans(ctx), lambda p: (users, [None], LC.C01_TREE, p, ["USER bob"]), LC.c01_oracle)
 
 
+def _close_faults(ctx):
+    """what a buffered backend has not written yet is written by `close()`: when THAT fails (ENOSPC, EIO of a network
+    file system, a quota) the upload is not complete, and 226 must not say it is.  (The situations and the fault
+    injection are C13's; the judgement here is C01's: no completion reply for bytes that were not stored.)"""
+    from props import c13
+
+    res = Result()
+    for i, sit in enumerate(c13.SITUATIONS):
+        if sit[2].split(" ")[0] not in ("STOR", "APPE", "RETR"):
+            continue
+        for backend in ("memory", "pathio"):
+            for fc in (0, 1):
+                r = c13._job((i, backend, None, "close", False, fc))
+                res.cases += 1
+                res.count("close_fault")
+                inp = {"kind": "close-fault", "situation": sit[0], "preparation": sit[1], "command": sit[2], "backend": backend, "fault_class": c13.FAULT_CLASSES[fc][0], "job": [i, backend, None, "close", False, fc]}
+                if isinstance(r, str):
+                    res.disagreements.append({"correspondence": "C01 close-fault harness", "input": inp, "impl": r})
+                    continue
+                res.distinct.add(("close-fault", sit[0], backend, fc))
+                if "close" in r["calls"] and 226 in r["codes"]:
+                    res.oracle_failures.append({"input": inp, "what": "%r: the backend's close() failed (%s) - what it had buffered is not stored - and the transfer was answered %r" % (sit[2], inp["fault_class"], r["codes"]), "signature": "C01:226-although-close-failed"})
+    return res
+
+
 def correspondence(ctx):
     res = _run(ctx, gen_cases(ctx))
     res.merge(_late(ctx))
+    res.merge(_close_faults(ctx))
     if res.oracle_failures:
         by_sig = {}
         for f in res.oracle_failures:
@@ -1061,6 +1088,7 @@ def shrink(fail, budget=160):
 def search(ctx, prior):
     res = Result()
     res.merge(_late(ctx))
+    res.merge(_close_faults(ctx))
     cases = []
     for d in prior.disagreements:
         c = d.get("input")
@@ -1081,6 +1109,12 @@ def search(ctx, prior):
 
 def replay(ctx, doc):
     inp = doc["failure"]["input"]
+    if inp.get("kind") == "close-fault":
+        from props import c13
+
+        r = c13._job(tuple(inp["job"]))
+        print(r if isinstance(r, str) else {k: r[k] for k in ("codes", "calls")})
+        return isinstance(r, str) or ("close" in r["calls"] and 226 in r["codes"])
     if "late_plan" in inp:
         import latewire as LW
         import world as W2
